@@ -130,6 +130,15 @@ def gen_arc(rng):
     return {"k": "c11.arc", "cx": c[0], "cy": c[1], "r": c[2], "a0": a0, "a": a, "fs": [0.0, 0.25, 0.5, 1.0, rng.random()]}
 
 
+def gen_arcpa(rng):
+    c = rnd_circle(rng)
+    t = rng.uniform(-PI, PI)
+    d = c[2] * rng.choice([1.0, 0.3, 2.5])          # the marking point need not be on the circle
+    a = rng.choice([rng.uniform(-2 * PI, 2 * PI), PI / 2, -PI, 2 * PI, -2 * PI, 1e-3])
+    return {"k": "c11.arcpa", "cx": c[0], "cy": c[1], "r": c[2], "p": [c[0] + d * math.cos(t), c[1] + d * math.sin(t)], "a": a, "t": t,
+            "fs": [0.0, 0.25, 0.5, 1.0, rng.random()]}
+
+
 def corpus():
     # D22 witness (fixed): outer tangents of nested circles panicked
     yield {"k": "c11.tangent", "c0": [-2.69, 0.18, 0.467], "c1": [-1.59, -2.06, 3.886], "p": [-2.9, -0.28], "theta": 0.1, "ratio": 1.1}
@@ -154,7 +163,7 @@ def generate(rng, tier):
     for _ in range(n):
         out += [gen_cc(rng), gen_tangent(rng), gen_line(rng), gen_arc3(rng), gen_arc(rng)]
     for _ in range(n // 5):
-        out += [gen_boxes(rng)]
+        out += [gen_boxes(rng), gen_arcpa(rng)]
     return out
 
 
@@ -349,6 +358,20 @@ def oracle(c, r):
                     if not any(dist(q, w) <= 1e-6 * max(1.0, c0[2]) for w in r["pts"]):
                         yield ("segment-missed", "the segment %r - %r crosses circle %r at %r (parameter %r), reported intersections %r" % (a, b, c0, q, t, r["pts"]))
                         break
+    elif k == "c11.arcpa":
+        center, rad = [c["cx"], c["cy"]], c["r"]
+        want0 = [center[0] + rad * math.cos(c["t"]), center[1] + rad * math.sin(c["t"])]
+        if dist(r["start"], want0) > 1e-8 * max(1.0, rad) or r["a"] != c["a"]:
+            yield ("arcpa-start", "circle_point_angle towards %r with sweep %r: the arc starts at %r with sweep %r, expected the point of the circle in that direction %r" % (c["p"], c["a"], r["start"], r["a"], want0))
+        if dist(r["c"], center) > 0 or r["r"] != rad:
+            yield ("arcpa-circle", "circle_point_angle(centre %r, radius %r) carries circle %r r %r" % (center, rad, r["c"], r["r"]))
+        a0, a = r["a0"], r["a"]
+        for f, pf, pl in zip(c["fs"], r["at_f"], r["at_l"]):
+            want = [center[0] + rad * math.cos(a0 + a * f), center[1] + rad * math.sin(a0 + a * f)]
+            if dist(pf, want) > 1e-8 * max(1.0, rad) or dist(pl, want) > 1e-8 * max(1.0, rad):
+                yield ("arc-point-at", "point_at_fraction(%r) = %r, point_at_length = %r, expected %r" % (f, pf, pl, want))
+                break
+        yield from arc_checks("arc", r, center, rad, a0, a)
     elif k in ("c11.arc3", "c11.arc"):
         if k == "c11.arc3":
             center, rad = r["c"], r["r"]
